@@ -26,10 +26,12 @@ class Case:
         return ";".join(" ".join("%x" % x for x in g) for g in self.groups)
 
 
-def world_hdr(E, wW=64, wcap=0, rW=64, rstrict=0, wcount=0, rcount=0, wbackend=0, rbackend=0, fin=0):
+def world_hdr(E, wW=64, wcap=0, rW=64, rstrict=0, wcount=0, rcount=0, wbackend=0, rbackend=0, fin=0, cont=0):
     # wbackend: 0 vec, 1 slice, 2 byte-stream adapter, 3 recording, 4 adapter over a STAGING sink (bytes
     # reach the destination only when the sink itself is flushed); fin: how the writer ends (0 drop, 1 into_inner)
-    return [1, E, wW, wcap, rW, rstrict, wcount, rcount, wbackend, rbackend, fin]
+    # cont (harness only): go on after an operation returned an error; the models stop at the first error, so
+    # such cases are compared by running the models on the history WITHOUT the failed operations
+    return [1, E, wW, wcap, rW, rstrict, wcount, rcount, wbackend, rbackend, fin] + ([1] if cont else [])
 
 
 def patterns(rng, nbytes):
